@@ -50,6 +50,21 @@ func sliceParamEffects(p *an.Prog, fn *ssa.Function, idx int, depth int) (muts [
 				if derived[x.X] {
 					mark(x)
 				}
+			case *ssa.UnOp:
+				// a load from a field of a local object that holds (a slice of) the argument
+				if fa, ok := x.X.(*ssa.FieldAddr); ok && x.Op == token.MUL {
+					if a := localObject(p, fa.X); a != nil {
+						for _, r := range *a.Referrers() {
+							if f2, ok := r.(*ssa.FieldAddr); ok && f2.Field == fa.Field && f2.Referrers() != nil {
+								for _, rr := range *f2.Referrers() {
+									if st, ok := rr.(*ssa.Store); ok && st.Addr == ssa.Value(f2) && derived[st.Val] {
+										mark(x)
+									}
+								}
+							}
+						}
+					}
+				}
 			case *ssa.Phi:
 				for _, e := range x.Edges {
 					if derived[e] {
@@ -86,8 +101,11 @@ func sliceParamEffects(p *an.Prog, fn *ssa.Function, idx int, depth int) (muts [
 			if ia, ok := x.Addr.(*ssa.IndexAddr); ok && derived[ia.X] {
 				muts = append(muts, "writes an element of its argument")
 			}
-			if _, ok := x.Addr.(*ssa.FieldAddr); ok && derived[x.Val] {
-				muts = append(muts, "retains (a slice of) its argument in a field")
+			if fa, ok := x.Addr.(*ssa.FieldAddr); ok && derived[x.Val] {
+				// a local object that does not outlive the call (a cursor over the argument) retains nothing
+				if localObject(p, fa.X) == nil {
+					muts = append(muts, "retains (a slice of) its argument in a field")
+				}
 			}
 		case *ssa.Return:
 			for _, r := range x.Results {
@@ -572,4 +590,90 @@ func staticOnly(p *an.Prog, c *ssa.CallCommon) []*ssa.Function {
 		return nil
 	}
 	return p.Callees(c)
+}
+
+// localObject returns the allocation v points to when it is a local of its
+// function that does not outlive the call: its address is only used for field
+// access, loads, and as an argument of module functions of the same package
+// that do not store it (checked one level down); nil otherwise.
+func localObject(p *an.Prog, v ssa.Value) *ssa.Alloc {
+	all := an.ResolveAll(v)
+	if len(all) != 1 {
+		return nil
+	}
+	a, ok := all[0].(*ssa.Alloc)
+	if !ok || a.Referrers() == nil {
+		// a pointer parameter bound by every caller to such a local
+		if prm, isP := all[0].(*ssa.Parameter); isP && prm.Parent() != nil {
+			fn := prm.Parent()
+			idx := -1
+			for i, q := range fn.Params {
+				if q == prm {
+					idx = i
+				}
+			}
+			sites := p.CallSitesOf(fn)
+			if idx < 0 || len(sites) == 0 || (fn.Object() != nil && fn.Object().Exported()) {
+				return nil
+			}
+			var found *ssa.Alloc
+			for _, s := range sites {
+				if idx >= len(s.Common().Args) {
+					return nil
+				}
+				la := localObject(p, s.Common().Args[idx])
+				if la == nil {
+					return nil
+				}
+				found = la
+			}
+			return found
+		}
+		return nil
+	}
+	if escapes(p, a, 1) {
+		return nil
+	}
+	return a
+}
+
+func escapes(p *an.Prog, a *ssa.Alloc, depth int) bool {
+	for _, r := range *a.Referrers() {
+		switch x := r.(type) {
+		case *ssa.FieldAddr, *ssa.DebugRef:
+		case *ssa.UnOp:
+		case *ssa.Store:
+			if x.Val == ssa.Value(a) {
+				return true
+			}
+		case *ssa.Call:
+			callee := x.Call.StaticCallee()
+			if callee == nil || callee.Blocks == nil || an.Outer(callee).Pkg != an.Outer(a.Parent()).Pkg {
+				return true
+			}
+			for i, arg := range x.Call.Args {
+				if arg != ssa.Value(a) || i >= len(callee.Params) {
+					continue
+				}
+				prm := callee.Params[i]
+				if prm.Referrers() == nil {
+					continue
+				}
+				for _, pr := range *prm.Referrers() {
+					switch y := pr.(type) {
+					case *ssa.FieldAddr, *ssa.DebugRef, *ssa.UnOp:
+					case *ssa.Store:
+						if y.Val == ssa.Value(prm) {
+							return true
+						}
+					default:
+						return true
+					}
+				}
+			}
+		default:
+			return true
+		}
+	}
+	return false
 }
